@@ -19,13 +19,41 @@ Local Open Scope Z_scope.
 Inductive value : Type :=
 | VNum (n : nty) (z : Z)
 | VBool (b : bool)
-| VStr (s : string).
+| VStr (s : string)
+(* lists of base values, one representation per element type, so that every value has
+   exactly one type and needs no well-formedness side condition                        *)
+| VLNum (n : nty) (zs : list Z)
+| VLBool (bs : list bool)
+| VLStr (ss : list string).
+
+Definition bty_of_nty (n : nty) : bty := match n with NMI => BMI | NInt => BInt end.
 
 Definition type_of (v : value) : ty :=
   match v with
   | VNum n _ => ty_of_nty n
   | VBool _ => TBool
   | VStr _ => TStr
+  | VLNum n _ => TList (bty_of_nty n)
+  | VLBool _ => TList BBool
+  | VLStr _ => TList BStr
+  end.
+
+(* the elements of a list value, as values *)
+Definition dec_list (v : value) : option (list value) :=
+  match v with
+  | VLNum n zs => Some (map (VNum n) zs)
+  | VLBool bs => Some (map VBool bs)
+  | VLStr ss => Some (map VStr ss)
+  | _ => None
+  end.
+
+(* the list value with the given elements *)
+Definition enc_list (b : bty) (vs : list value) : option value :=
+  match b with
+  | BMI => option_map (VLNum NMI) (map_opt (fun v => match v with VNum _ z => Some z | _ => None end) vs)
+  | BInt => option_map (VLNum NInt) (map_opt (fun v => match v with VNum _ z => Some z | _ => None end) vs)
+  | BBool => option_map VLBool (map_opt (fun v => match v with VBool x => Some x | _ => None end) vs)
+  | BStr => option_map VLStr (map_opt (fun v => match v with VStr x => Some x | _ => None end) vs)
   end.
 
 (* 64-bit two's complement wrap-around: MachineInteger operations are the Machine SInt
@@ -45,12 +73,23 @@ Definition value_of_lit (l : lit) : value :=
         sal_char.as:127 Boolean prints T / F; sal_string.as:452 String prints its characters) *)
 Definition dec_of_Z (z : Z) : string := NilZero.string_of_int (Z.to_int z).
 
+Fixpoint sep_strs (l : list string) : string :=
+  match l with
+  | [] => ""%string
+  | [x] => x
+  | x :: r => (x ++ "," ++ sep_strs r)%string
+  end.
+
+(* lists print as [e1,e2,..] : `[`, elements separated by `,`, `]` (sal_list.as:327-336) *)
 Definition show (v : value) : string :=
   match v with
   | VNum _ z => dec_of_Z z
   | VBool true => "T"
   | VBool false => "F"
   | VStr s => s
+  | VLNum _ zs => ("[" ++ sep_strs (map dec_of_Z zs) ++ "]")%string
+  | VLBool bs => ("[" ++ sep_strs (map (fun b : bool => if b then "T"%string else "F"%string) bs) ++ "]")%string
+  | VLStr ss => ("[" ++ sep_strs ss ++ "]")%string
   end.
 
 (* ---- library operations ---- *)
@@ -61,6 +100,13 @@ Inductive pres : Type := PVal (v : value) | PUndef | PStuck.
 Definition num_abs (n : nty) (a : Z) : Z := if a <? 0 then norm n (- a) else a.
 Definition num_mod (n : nty) (a b : Z) : Z :=
   let r := Z.rem a b in if r <? 0 then norm n (r + num_abs n b) else r.
+
+Fixpoint list_eqb {A : Type} (eqb : A -> A -> bool) (a b : list A) : bool :=
+  match a, b with
+  | [], [] => true
+  | x :: a', y :: b' => (eqb x y && list_eqb eqb a' b')%bool
+  | _, _ => false
+  end.
 
 Definition prim_eval (p : prim) (vs : list value) : pres :=
   match p, vs with
@@ -112,6 +158,43 @@ Definition prim_eval (p : prim) (vs : list value) : pres :=
   | PLen, [VStr a] => PVal (VNum NMI (Z.of_nat (String.length a)))
   | PSEq, [VStr a; VStr b] => PVal (VBool (String.eqb a b))
   | PSNe, [VStr a; VStr b] => PVal (VBool (negb (String.eqb a b)))
+  (* List(T): first / rest of the empty list and l.i outside 1..#l are only guarded by
+     assertions that the shipped library drops (sal_list.as:284-296): not defined           *)
+  | PLCons (BMI | BInt), [VNum n z; VLNum n2 zs] => PVal (VLNum n2 (z :: zs))
+  | PLCons BBool, [VBool x; VLBool xs] => PVal (VLBool (x :: xs))
+  | PLCons BStr, [VStr x; VLStr xs] => PVal (VLStr (x :: xs))
+  | PLFirst _, [VLNum n (z :: _)] => PVal (VNum n z)
+  | PLFirst _, [VLBool (x :: _)] => PVal (VBool x)
+  | PLFirst _, [VLStr (x :: _)] => PVal (VStr x)
+  | PLFirst _, [(VLNum _ [] | VLBool [] | VLStr [])] => PUndef
+  | PLRest _, [VLNum n (_ :: zs)] => PVal (VLNum n zs)
+  | PLRest _, [VLBool (_ :: xs)] => PVal (VLBool xs)
+  | PLRest _, [VLStr (_ :: xs)] => PVal (VLStr xs)
+  | PLRest _, [(VLNum _ [] | VLBool [] | VLStr [])] => PUndef
+  | PLLen _, [VLNum _ zs] => PVal (VNum NMI (Z.of_nat (List.length zs)))
+  | PLLen _, [VLBool xs] => PVal (VNum NMI (Z.of_nat (List.length xs)))
+  | PLLen _, [VLStr xs] => PVal (VNum NMI (Z.of_nat (List.length xs)))
+  | PLEmptyQ _, [VLNum _ zs] => PVal (VBool (match zs with [] => true | _ => false end))
+  | PLEmptyQ _, [VLBool xs] => PVal (VBool (match xs with [] => true | _ => false end))
+  | PLEmptyQ _, [VLStr xs] => PVal (VBool (match xs with [] => true | _ => false end))
+  | PLRev _, [VLNum n zs] => PVal (VLNum n (rev zs))
+  | PLRev _, [VLBool xs] => PVal (VLBool (rev xs))
+  | PLRev _, [VLStr xs] => PVal (VLStr (rev xs))
+  | PLEq _, [VLNum _ a; VLNum _ b] => PVal (VBool (list_eqb Z.eqb a b))
+  | PLEq _, [VLBool a; VLBool b] => PVal (VBool (list_eqb Bool.eqb a b))
+  | PLEq _, [VLStr a; VLStr b] => PVal (VBool (list_eqb String.eqb a b))
+  | PLNe _, [VLNum _ a; VLNum _ b] => PVal (VBool (negb (list_eqb Z.eqb a b)))
+  | PLNe _, [VLBool a; VLBool b] => PVal (VBool (negb (list_eqb Bool.eqb a b)))
+  | PLNe _, [VLStr a; VLStr b] => PVal (VBool (negb (list_eqb String.eqb a b)))
+  | PLNth _, [VLNum n zs; VNum _ i] =>
+      if (1 <=? i) then match nth_error zs (Z.to_nat (i - 1)) with Some z => PVal (VNum n z) | None => PUndef end
+      else PUndef
+  | PLNth _, [VLBool xs; VNum _ i] =>
+      if (1 <=? i) then match nth_error xs (Z.to_nat (i - 1)) with Some x => PVal (VBool x) | None => PUndef end
+      else PUndef
+  | PLNth _, [VLStr xs; VNum _ i] =>
+      if (1 <=? i) then match nth_error xs (Z.to_nat (i - 1)) with Some x => PVal (VStr x) | None => PUndef end
+      else PUndef
   | _, _ => PStuck
   end.
 
@@ -128,11 +211,13 @@ Inductive res (A : Type) : Type :=
 | RIter (s : state)                     (* iterate *)
 | RRet (s : state) (v : value)          (* return v *)
 | RExit (s : state) (ov : option value) (* `c => ..` fired: leave the enclosing braces *)
+| RThrow (s : state) (k : nat)          (* exception in flight: 0 = the run-time error raised by
+                                           error / never, S k = user exception Ex<k> *)
 | RUndef
 | RFuel
 | RStuck.
 Arguments RVal {A}. Arguments RBrk {A}. Arguments RIter {A}. Arguments RRet {A}.
-Arguments RExit {A}. Arguments RUndef {A}. Arguments RFuel {A}. Arguments RStuck {A}.
+Arguments RExit {A}. Arguments RThrow {A}. Arguments RUndef {A}. Arguments RFuel {A}. Arguments RStuck {A}.
 
 Definition bind {A B : Type} (r : res A) (k : state -> A -> res B) : res B :=
   match r with
@@ -141,6 +226,7 @@ Definition bind {A B : Type} (r : res A) (k : state -> A -> res B) : res B :=
   | RIter s => RIter s
   | RRet s v => RRet s v
   | RExit s ov => RExit s ov
+  | RThrow s k => RThrow s k
   | RUndef => RUndef
   | RFuel => RFuel
   | RStuck => RStuck
@@ -165,6 +251,13 @@ Definition end_block (r : res unit) : res unit :=
   | RExit s None => RVal s tt
   | RExit s (Some _) => RStuck
   | _ => r
+  end.
+
+(* handler for exception number k (0 = run-time error: no user handler matches it) *)
+Fixpoint find_handler (k : nat) (hs : list (nat * list stmt)) : option (list stmt) :=
+  match hs with
+  | [] => None
+  | (j, h) :: r => if Nat.eqb k (S j) then Some h else find_handler k r
   end.
 
 Section Eval.
@@ -216,10 +309,22 @@ Section Eval.
           | RBrk s' => RBrk s'
           | RIter s' => RIter s'
           | RRet s' v => RRet s' v
+          | RThrow s' k => RThrow s' k
           | RUndef => RUndef
           | RFuel => RFuel
           | RStuck => RStuck
           end
+      | EListLit b es =>
+          bind (eval_args f' s es) (fun s' vs =>
+            match enc_list b vs with Some v => RVal s' v | None => RStuck end)
+      | EMac m e' =>
+          bind (eval_expr f' s e') (fun s1 v1 =>
+            bind (eval_expr f' s1 e') (fun s2 v2 =>
+              match prim_eval (mac_prim m) [v1; v2] with
+              | PVal v => RVal s2 v
+              | PUndef => RUndef
+              | PStuck => RStuck
+              end))
       end
     end
 
@@ -253,17 +358,20 @@ Section Eval.
                   match eval_expr f' s2 (fd_result fd) with
                   | RVal s3 v => RVal (back s3) v
                   | RRet s3 v => RVal (back s3) v
+                  | RThrow s3 k => RThrow (back s3) k
                   | RUndef => RUndef
                   | RFuel => RFuel
                   | _ => RStuck
                   end
               | RRet s2 v => RVal (back s2) v
               | RExit s2 (Some v) => RVal (back s2) v
+              | RThrow s2 k => RThrow (back s2) k
               | RUndef => RUndef
               | RFuel => RFuel
               | _ => RStuck
               end
           | RRet s1 v => RVal (back s1) v
+          | RThrow s1 k => RThrow (back s1) k
           | RUndef => RUndef
           | RFuel => RFuel
           | _ => RStuck
@@ -328,6 +436,12 @@ Section Eval.
               | VNum NMI a, VNum NMI b => eval_for f' s2 a b body
               | _, _ => RStuck
               end))
+      | SForIn _ l body =>
+          bind (eval_expr f' s l) (fun s1 vl =>
+            match dec_list vl with
+            | Some vs => eval_forin f' s1 vs body
+            | None => RStuck
+            end)
       | SBreak => RBrk s
       | SIterate => RIter s
       | SReturn e => bind (eval_expr f' s e) (fun s1 v => RRet s1 v)
@@ -348,6 +462,23 @@ Section Eval.
       | SCall name args =>
           bind (eval_args f' s args) (fun s1 vs =>
             bind (eval_call f' s1 name vs) (fun s2 _ => RVal s2 tt))
+      (* error s: the message goes to stderr (sal_string.as:341-345), then the program is
+         terminated through the run-time error exception; uncaught, it ends the program
+         with a failure status                                                            *)
+      | SError e => bind (eval_expr f' s e) (fun s1 _ => RThrow s1 O)
+      | SNever => RThrow s O
+      | SThrow k => RThrow s (S k)
+      (* try/catch (langtry.tex:94-142): the handler whose `E has Ex<k>Type` test holds first
+         is run; the final `true => throw E` passes every other exception on                *)
+      | STry body hs =>
+          match end_block (eval_block f' s body) with
+          | RThrow s1 k =>
+              match find_handler k hs with
+              | Some h => end_block (eval_block f' s1 h)
+              | None => RThrow s1 k
+              end
+          | r => r
+          end
       end
     end
 
@@ -385,9 +516,29 @@ Section Eval.
         | RVal s2 _ => eval_for f' (pop_frame s2) (wrap64 (a + 1)) b body
         | RIter s2 => eval_for f' (pop_frame s2) (wrap64 (a + 1)) b body
         | RBrk s2 => RVal (pop_frame s2) tt
+        | RThrow s2 k => RThrow (pop_frame s2) k
         | r => r
         end
       else RVal s tt
+    end
+
+  (* for x in l (langloop.tex:256-260: implicit `generator l`; sal_list.as generator yields the
+     elements in order); the list value is formed once, lists are immutable in the subset   *)
+  with eval_forin (f : nat) (s : state) (vs : list value) (body : list stmt) {struct f} : res unit :=
+    match f with
+    | O => RFuel
+    | S f' =>
+      match vs with
+      | [] => RVal s tt
+      | v :: rest =>
+        match end_block (eval_block f' (with_frame s (sl s ++ [v])) body) with
+        | RVal s2 _ => eval_forin f' (pop_frame s2) rest body
+        | RIter s2 => eval_forin f' (pop_frame s2) rest body
+        | RBrk s2 => RVal (pop_frame s2) tt
+        | RThrow s2 k => RThrow (pop_frame s2) k
+        | r => r
+        end
+      end
     end.
 
   (* ---- whole programs ---- *)
@@ -406,6 +557,7 @@ Section Eval.
     | IConst _ e :: r | IVar _ e :: r =>
         match eval_expr f (with_frame s []) e with
         | RVal s1 v => eval_items f (mkSt (sg s1 ++ [v]) [] (so s1)) r
+        | RThrow s1 _ => Done (output_of s1) StFail    (* unhandled exception *)
         | RFuel => OutOfFuel
         | RUndef => Undef
         | _ => Stuck
@@ -414,6 +566,7 @@ Section Eval.
     | IStmt st :: r =>
         match eval_stmt f (with_frame s []) st with
         | RVal s1 _ => eval_items f (with_frame s1 []) r
+        | RThrow s1 _ => Done (output_of s1) StFail
         | RFuel => OutOfFuel
         | RUndef => Undef
         | _ => Stuck
